@@ -311,7 +311,7 @@ class C17(Property):
         return cfg
 
     def cases(self, rng, tier):
-        n = 22 if tier == 'quick' else 450
+        n = 18 if tier == 'quick' else 450
         out = []
         for k in range(n):
             r = rng.random()
